@@ -14,10 +14,10 @@ SPEC = {
                   "the order-free specification specOK, which Lean evaluates on the outcomes of the real cleaner.  Failures are "
                   "in the model separately: a failed rename keeps the entry, a failed removal of the renamed entry leaves it "
                   "half-removed (C14_witness_half_removed; whole-entries is stated for successful removals).  The full "
-                  "statement was refuted three times on the real code; ONE IS FIXED (/repo 9d3a892): in compressed caches the "
+                  "statement was refuted three times on the real code; ONE IS FIXED (/repo cfa9e37): in compressed caches the "
                   "temporary of a store in flight was recognised but not protected - Store now marks it, C14_store_tmp_protected and "
                   "C14_inflight_tmp_never_evicted are full for both modes, the old witness is conditional on the old fact value.  "
-                  "ALSO FIXED (/repo 588d777): the isMarked test and the rename were "
+                  "ALSO FIXED (/repo 2a5162f): the isMarked test and the rename were "
                   "two steps, so an entry retrieved in between was removed (C14_witness_marked_in_window, now conditional on the old "
                   "fact value); the loop now tests and renames under the mutex (facts: loop shape + the helper's lock/test/rename "
                   "sequence) and C14_marked_before_rename_protected holds.  Still open, by design: read literally the bound also "
@@ -70,9 +70,9 @@ group), the test-to-rename window exercised through a second add-only pause poin
 retrieveFiles' call ORDER extracted.  Mutations A-F were run before that refactor; B was re-run after the late-mark
 extension; the set was re-run in full after the refactor and the fixes, see below.
 
-FIX PHASE.  Three findings repaired in /repo: 9d3a892 (Store marks its temporary), 588d777 (test and rename under the mutex);
-no-clean-below-high-water-mark stays (by design).  Re-introductions (git revert of each fix on a scratch copy): 9d3a892 -> exit 1,
-VIOLATION class compressed-temp-unprotected-during-store, 21/23; 588d777 -> exit 1, VIOLATION class
+FIX PHASE.  Three findings repaired in /repo: cfa9e37 (Store marks its temporary), 2a5162f (test and rename under the mutex);
+no-clean-below-high-water-mark stays (by design).  Re-introductions (git revert of each fix on a scratch copy): cfa9e37 -> exit 1,
+VIOLATION class compressed-temp-unprotected-during-store, 21/23; 2a5162f -> exit 1, VIOLATION class
 entry-marked-between-test-and-rename-evicted, 21/23.  Seeded change /tmp/seedout/C14/patch.diff (loop consults a snapshot of the
 marks): exit 1, VIOLATION class entry-marked-after-cleaning-started-evicted, 5 disagreements.
 
@@ -81,7 +81,7 @@ Mutation set re-run on the repaired base (all compile), quick 14-35 s each on a 
   B renameUnlessMarked no longer looks at the marks (the repaired loop has no separate isMarked skip to delete)
                   -> exit 1, 21/23, 12 disagreements, three classes (marked during pass / after cleaning started / between test and rename)
   C no subtraction -> exit 1, 22/23, 20 disagreements, returned-total-wrong
-  D markDir drops added[path+"="] -> exit 1 by the facts only (`no-failing-input-found`, 0 disagreements).  Since 9d3a892 Store marks
+  D markDir drops added[path+"="] -> exit 1 by the facts only (`no-failing-input-found`, 0 disagreements).  Since cfa9e37 Store marks
                   its temporary directly, so that second key no longer protects anything this process stores or retrieves in any
                   scenario the harness can produce (it only protected, incidentally, another process's temporary of a key this process
                   had retrieved).  A semantic change without a counterexample: reported as such.
